@@ -136,6 +136,26 @@ PickIterDefaultC(s, u, asgs) ==   \* default care set: exactly the models over t
   IN /\ \A i \in DOMAIN asgs : DOMAIN AsgFn(s, asgs[i]) = S
      /\ Len(asgs) = CountF(n, F, Cardinality(S))
 
+(* ---- C13 ---- *)
+RenIdx(s, froms, tos) ==     \* parallel sequences of names -> function on variable numbers
+  [k \in {NameIdx(s, froms[i]) : i \in DOMAIN froms} |->
+     NameIdx(s, tos[CHOOSE i \in DOMAIN froms : NameIdx(s, froms[i]) = k])]
+PreimageC(s, t, T, tgt, froms, tos, qnames, forall, r) ==
+  ResultIs(t, r, PreimageF(NV(s), Den(s, T), Den(s, tgt), RenIdx(s, froms, tos), VarNums(s, qnames), forall))
+ImageC(s, t, T, src, froms, tos, qnames, forall, r) ==
+  ResultIs(t, r, ImageF(NV(s), Den(s, T), Den(s, src), RenIdx(s, froms, tos), VarNums(s, qnames), forall))
+(* documented preconditions *)
+PreimagePre(s, tgt, froms, tos) ==
+  /\ SeqSet(froms) \cap SeqSet(tos) = {}
+  /\ \A i \in DOMAIN froms : Abs(LevelOf(s, froms[i]) - LevelOf(s, tos[i])) = 1
+ImagePre(s, T, src, froms, tos, qnames) ==
+  /\ SeqSet(froms) \cap SeqSet(tos) = {}
+  /\ \A nm \in SeqSet(tos) : nm \in qnames
+        \/ (NameIdx(s, nm) \notin Support(NV(s), Den(s, T)) /\ NameIdx(s, nm) \notin Support(NV(s), Den(s, src)))
+(* the additional condition under which the level-shift descent is exact:
+   the target does not itself mention a variable it is renamed TO *)
+TargetUnprimed(s, tgt, tos) == \A nm \in SeqSet(tos) : NameIdx(s, nm) \notin Support(NV(s), Den(s, tgt))
+
 (* ---- C17 / generic: a rejected call changes nothing the user can see ---- *)
 RaisedC(s, t) == /\ t.order = s.order
                  /\ t.lastlen = s.lastlen
